@@ -19,7 +19,9 @@ type Term struct {
 	Pats  [][]*Term // quantifier: patterns
 	id    int
 	kind  termKind
-	hasBV bool // mentions a bound variable (cannot be hoisted)
+	hasBV bool // has a free bound variable (cannot be hoisted)
+	hasQ  bool // contains a quantifier
+	fbv   []*Term
 }
 
 type termKind int
@@ -67,14 +69,36 @@ func intern(t *Term) *Term {
 	}
 	termCount++
 	t.id = termCount
+	fv := map[*Term]bool{}
 	for _, a := range t.Args {
-		if a.hasBV {
-			t.hasBV = true
+		for _, v := range a.fbv {
+			fv[v] = true
+		}
+		if a.hasQ {
+			t.hasQ = true
+		}
+	}
+	for _, p := range t.Pats {
+		for _, x := range p {
+			for _, v := range x.fbv {
+				fv[v] = true
+			}
 		}
 	}
 	if t.kind == kBoundVar {
-		t.hasBV = true
+		fv[t] = true
 	}
+	if t.kind == kQuant {
+		t.hasQ = true
+		for _, b := range t.Bound {
+			delete(fv, b)
+		}
+	}
+	for v := range fv {
+		t.fbv = append(t.fbv, v)
+	}
+	sort.Slice(t.fbv, func(i, j int) bool { return t.fbv[i].id < t.fbv[j].id })
+	t.hasBV = len(t.fbv) > 0
 	termTab[k] = t
 	return t
 }
